@@ -254,3 +254,98 @@ def fcnPaths := obsPathsPG ordersObs fcnEnv FUEL "FCNAgent.submit_orders_by_mark
 theorem fcnPaths_eq : fcnPaths = evalnf% fcnPaths := by kernel_rfl
 
 end Pams.Src
+
+/-! ### market-share FCN agent: which market it trades, and with which weights -/
+namespace Pams.Src
+open Pams Pams.Py Pams.Agents
+variable {K : Type} [LinearOrder K] [NumOpsC K]
+
+def msAgent : String → Option Val
+  | "__class__" => some (.str "MarketShareFCNAgent")
+  | "time_window_size" => some (.int (.lit 3))
+  | _ => none
+
+/-- market `k` (address 5 + k) at clock `now`, with eight recorded volume slots (int atoms 50 + 10 k + slot) -/
+def msMarket (k : Nat) (now : Nat) : String → Option Val
+  | "__class__" => some (.str "Market")
+  | "market_id" => some (.int (.lit k))
+  | "time" => some (.int (.lit now))
+  | "_executed_volumes" => some (.list ((List.range 8).map (fun s => .int (.atom (50 + 10 * k + s)))))
+  | _ => none
+
+def msSt (now : Nat) : St :=
+  { heap := fun a => if a = 1 then msAgent else if a = 5 then msMarket 0 now else if a = 6 then msMarket 1 now
+      else fun _ => none, calls := [] }
+
+/-- accessibility of market `k` = bool atom 1 + k; `choices` answers the first candidate; the FCN order on the
+chosen market is extern here (its source theorem is `fcn_src`) -/
+def msExt : Ext := fun st recv fn args =>
+  match recv, fn, args with
+  | .ref 1, "is_market_accessible", [.int (.lit k)] => some (.bool (.atom (1 + k.toNat)), st)
+  | .ref 1, "get_prng", [] => some (.ref 2, st)
+  | .ref 2, "choices", [.list (m :: _), _] => some (.list [m], st)
+  | .none, "FCNAgent.submit_orders_by_market", [_, _] => some (.list [], st)
+  | _, _, _ => none
+
+def msEnv : Env :=
+  { prog := PamsGen.Code.prog.filter (fun e => e.1.startsWith "MarketShareFCNAgent." || e.1 == "Market.get_time" ||
+      e.1 == "Market.get_executed_volumes" || e.1 == "Market._extract_sequential_data_by_time"),
+    globals := agentGlobals, ext := msExt, mro := PamsGen.Code.mroOf }
+
+/-- the candidates and weights handed to `choices`, and the market the FCN order is then made for -/
+def msObs : Except Py.Err (Val × St) → Obs
+  | .ok (_, st) =>
+    .tuple ((st.calls.reverse.filter (fun c => c.fn == "choices" || c.fn == "FCNAgent.submit_orders_by_market")).map
+      (fun c => .tuple (Obs.str c.fn :: c.args.map (fun a => match a with
+        | .list l => .tuple (l.map Obs.ofVal) | v => Obs.ofVal v))))
+  | .error e => .err e
+
+def msPaths (now : Nat) := obsPathsPG msObs msEnv FUEL "MarketShareFCNAgent.submit_orders" [.ref 1, .list [.ref 5, .ref 6]] (msSt now)
+
+theorem msPaths5 : msPaths 5 = evalnf% (msPaths 5) := by kernel_rfl
+theorem msPaths1 : msPaths 1 = evalnf% (msPaths 1) := by kernel_rfl
+
+def rhoMs (a0 a1 : Bool) (vol : Nat → Nat → Int) : Rho K :=
+  { i := fun k => if 50 ≤ k ∧ k < 60 then vol 0 (k - 50) else if 60 ≤ k ∧ k < 70 then vol 1 (k - 60) else 0
+    n := fun _ => PyNum.ofInt 0
+    b := fun k => if k = 1 then a0 else a1 }
+
+/-- the weight of a market: its traded volume over the window, as a float, plus 1e-10 -/
+def msWeight (total : Int) : K := PyNum.ofInt total + PyNum.ofInt 1 / PyNum.ofInt 10000000000
+
+def msCall (cands : List Nat) (ws : List K) : List (CObs K) :=
+  match cands with
+  | [] => []
+  | m :: _ => [.tuple [.str "choices", .tuple (cands.map CObs.ref), .tuple (ws.map CObs.num)],
+               .tuple [.str "FCNAgent.submit_orders_by_market", .ref 1, .ref m]]
+
+/-- **the market-share agent weighs every accessible market by its traded volume over the last
+`time_window_size` steps up to now** (clock 5, window 3: slots 2 … 5; clock 1: slots 0 … 1 — the window is cut
+at time 0), hands exactly these candidates and weights to `choices`, and makes its FCN order for the market
+drawn; with no accessible market it refuses -/
+theorem ms_src (a0 a1 : Bool) (vol : Nat → Nat → Int) :
+    resultG msObs (rhoMs (K := K) a0 a1 vol) msEnv FUEL "MarketShareFCNAgent.submit_orders" [.ref 1, .list [.ref 5, .ref 6]] (msSt 5)
+      = (if a0 = false ∧ a1 = false then .err (.raise "AssertionError") else
+          .tuple (msCall ((if a0 then [5] else []) ++ (if a1 then [6] else []))
+            ((if a0 then [msWeight (0 + vol 0 2 + vol 0 3 + vol 0 4 + vol 0 5)] else []) ++
+             (if a1 then [msWeight (0 + vol 1 2 + vol 1 3 + vol 1 4 + vol 1 5)] else [])))) ∧
+    resultG msObs (rhoMs (K := K) a0 a1 vol) msEnv FUEL "MarketShareFCNAgent.submit_orders" [.ref 1, .list [.ref 5, .ref 6]] (msSt 1)
+      = (if a0 = false ∧ a1 = false then .err (.raise "AssertionError") else
+          .tuple (msCall ((if a0 then [5] else []) ++ (if a1 then [6] else []))
+            ((if a0 then [msWeight (0 + vol 0 0 + vol 0 1)] else []) ++
+             (if a1 then [msWeight (0 + vol 1 0 + vol 1 1)] else [])))) := by
+  constructor
+  · apply resultG_eq_of_pathsP (by intro x; simp)
+    show ∀ p ∈ msPaths 5, _
+    py_paths msPaths5
+    all_goals intro h
+    all_goals simp [BTerm.eval, ITerm.eval, NTerm.eval, rhoMs, Obs.eval, Obs.evalList, msCall, msWeight] at h ⊢
+    all_goals simp_all
+  · apply resultG_eq_of_pathsP (by intro x; simp)
+    show ∀ p ∈ msPaths 1, _
+    py_paths msPaths1
+    all_goals intro h
+    all_goals simp [BTerm.eval, ITerm.eval, NTerm.eval, rhoMs, Obs.eval, Obs.evalList, msCall, msWeight] at h ⊢
+    all_goals simp_all
+
+end Pams.Src
